@@ -41,6 +41,28 @@ def canon_pre(ck, ctx):
         ck.ob("canon-pre", "canon::canonicalize_path|no-explicit-panic", True, "no explicit panic is reachable from canonicalize_path (functions %s)" % seen, span="canon::canonicalize_path")
     for fn, k, msg, loc in found:
         ck.ob("canon-pre", "%s|%s" % (fn, k), False, "explicit panic %s reachable from canonicalize_path, which is called on unvalidated strings at %d sites" % (msg, len(sites)), span=loc, fn=fn)
+    # the empty string (`build $undefined: ..`, target "") is returned untouched: the emptiness test comes first and its true edge
+    # reaches the return without any call, index or write (the body indexes data[0] when nothing was kept)
+    cb = F.body("canon::canonicalize_path")
+    if cb is not None:
+        ccfg = ctx.cfg(cb)
+        z, nz = C.zero_test_edges(ctx, cb, lambda e: e[0] == "call" and e[1].endswith(("String::len", "str::len", "Vec::len")) and strip(e[2][0])[0] == "param")
+
+        def pred_empty(e):
+            e = strip(e)
+            return e[0] == "call" and e[1].endswith(("String::is_empty", "str::is_empty")) and strip(e[2][0])[0] == "param"
+
+        g_empty = set(C.bool_gate_edges(ctx, cb, pred_empty)) | set(z)
+        ok_e = False
+        for x, lab in g_empty:
+            # first decision of the function, and nothing happens on the empty edge
+            pre = [y for y in ccfg.reach if ccfg.dominates(y, x) and y != x]
+            pre_calls = [callee_of(cb.blocks[y]["term"]) for y in pre + [x] if cb.blocks[y]["term"] and cb.blocks[y]["term"]["k"] == "call"]
+            r = ccfg.reach_avoid(ccfg.edge_targets(x, lab))
+            quiet = all((cb.blocks[y]["term"] or {}).get("k") in ("goto", "return", "drop") for y in r)
+            if quiet and all(c.endswith(("is_empty", "::len")) for c in pre_calls):
+                ok_e = True
+        ck.ob("canon-pre", "empty-path-returned-untouched", ok_e, "canonicalize_path tests emptiness first and returns at once for an empty string (gates %s)" % sorted(g_empty), span=cb.loc, fn=cb.nname)
     ck.ob("canon-pre", "reachable-set", "canon::StackStack::push" in seen and "canon::StackStack::pop" in seen, "the search covered the component stack helpers (%s)" % seen, span="canon::canonicalize_path", nontrivial=False)
 
 
